@@ -744,6 +744,9 @@ def incremental_rule(ctx):
 
 
 def run(ctx):
+    from . import e2e_rules as _e2e
+
+    ctx.attempt(_e2e.solve_rule, ctx, 'R4.E1')
     from . import c05 as _c05
 
     ctx.attempt(bounded_solve_rule, ctx)
